@@ -46,6 +46,12 @@ type retPoint struct {
 	block   int
 }
 
+// recoverCtx describes the panic being unwound through a frame.
+type recoverCtx struct {
+	val       Term // the panic value (non-nil interface)
+	recovered Term // Bool: some deferred function called recover()
+}
+
 type deferEntry struct {
 	guard Term
 	call  *ssa.CallCommon
@@ -92,6 +98,12 @@ type Frame struct {
 	frameRefs  map[string][]Term
 	frameAll   bool
 	parent     *Frame
+	inDeferred  bool // this frame is currently executing one of its deferred calls
+	deferredCall bool // this (inlined) frame is the body of a deferred call of its parent
+	recoverCtx  *recoverCtx // set while this frame's deferred calls run because of a panic
+	exitSt      *State  // merged state of all normal exits
+	exitResults []Value
+	recoverEntries []*State // states that resume at fn.Recover (a deferred function recovered)
 	siteChan    ssa.Value // channel operand of the select case being visited
 	keepRegions map[string]bool // protected regions preserved by the call being processed
 	localCells map[string][]Term // region -> refs of non-escaping local cells (Alloc) of this frame
@@ -613,6 +625,7 @@ func (f *Frame) run(st *State) ([]Value, *State) {
 	for _, b := range f.rpo() {
 		f.runBlock(b, st)
 	}
+	f.runRecoverBlock()
 	if len(f.rets) == 0 {
 		return nil, &State{reach: tFalse, heap: st.heap.clone(), wm: st.wm}
 	}
@@ -1226,4 +1239,69 @@ func (f *Frame) loopDirectCellStores(li *loopInfo) map[string]bool {
 		}
 	}
 	return out
+}
+
+// panicFork models a panic raised by the call at ins: the frame's deferred calls run (LIFO)
+// with recover() yielding the panic value once; if a deferred function recovered, control
+// resumes at fn.Recover (or returns zero values); otherwise the panic leaves the frame.
+// The state st continues on the no-panic path (its reach is narrowed by the caller).
+func (f *Frame) panicFork(ins ssa.Instruction, pst *State, extra map[string]Value) {
+	u := f.u
+	pv := u.sc.fresh("panicval", SIface)
+	u.assume(pst.reach, mkAnd(mk(SBool, ">", mk(SInt, "if-tag", pv), intConst(0)), mk(SBool, ">=", mk(SInt, "if-val", pv), intConst(0))))
+	if f.top && f.ghostTy != nil {
+		if _, ok := f.ghostTy["panicked"]; ok {
+			pst.heap["Gh_panicked"] = tTrue
+		}
+	}
+	f.siteHook("panic", ins, pst, extra)
+	rc := &recoverCtx{val: pv, recovered: tFalse}
+	f.recoverCtx = rc
+	for i := len(f.defers) - 1; i >= 0; i-- {
+		f.runDeferred(f.defers[i], pst)
+	}
+	f.recoverCtx = nil
+	rec := u.freshDef("recovered", rc.recovered)
+	// recovered: resume at the Recover block
+	rst := pst.clone()
+	rst.reach = u.freshDef("reach", mkAnd(pst.reach, rec))
+	f.recoverEntries = append(f.recoverEntries, rst)
+	// not recovered: the panic propagates
+	est := pst.clone()
+	est.reach = u.freshDef("reach", mkAnd(pst.reach, mkNot(rec)))
+	f.panics = append(f.panics, est)
+}
+
+// runRecoverBlock executes fn.Recover for the states in which a deferred function recovered.
+func (f *Frame) runRecoverBlock() {
+	if len(f.recoverEntries) == 0 {
+		return
+	}
+	var conds []Term
+	for _, s := range f.recoverEntries {
+		conds = append(conds, s.reach)
+	}
+	st := f.mergeStates(conds, f.recoverEntries)
+	f.recoverEntries = nil
+	rb := f.fn.Recover
+	if rb == nil {
+		// no named results: the function returns the zero values
+		var res []Value
+		rt := f.fn.Signature.Results()
+		for i := 0; i < rt.Len(); i++ {
+			res = append(res, Value{T: f.u.te.zero(rt.At(i).Type()), Ty: rt.At(i).Type()})
+		}
+		f.rets = append(f.rets, retPoint{st: st, results: res, block: 1 << 20})
+		return
+	}
+	f.curBlock = rb
+	for i, ins := range rb.Instrs {
+		f.curIdx = i
+		if _, ok := ins.(*ssa.Phi); ok {
+			continue
+		}
+		if !f.step(rb, ins, st) {
+			break
+		}
+	}
 }
